@@ -33,6 +33,11 @@ func TestC10(t *testing.T) {
 		cfg.MaxReaders = 4
 		cfg.ReaderBoost = 2
 		cfg.CommitWeight = 40
+		if rapid.IntRange(0, 3).Draw(rt, "withfaults") == 0 {
+			// a transaction that fails on an I/O error must give back everything it took from the free list
+			cfg.Faults, cfg.FaultKinds = 3, "W,S,T,GS,"
+			e.AllowCommitErr = true
+		}
 		if rapid.IntRange(0, 5).Draw(rt, "maxsize") == 0 {
 			// a transaction that fails on the size limit must give back everything it took from the free list
 			o := gen.Opts(rt, cfg)
@@ -87,10 +92,11 @@ func c10Install(e *drv.Env) *c10State {
 		return st.exactFree(e, a.HWM, free, "after open")
 	}
 	e.AfterFailure = func(e *drv.Env, err error) *drv.Violation {
-		if !isMaxSize(err) {
-			return drv.Violf("commit failed with %v (only the size limit may fail here)", err)
+		if (e.Failed == nil || !e.FailedInTx) && !isMaxSize(err) {
+			return drv.Violf("commit failed with %v without an injected fault or the size limit", err)
 		}
-		e.Label("size-limit-failure")
+		e.FailAt = 0
+		e.Label("size-limit-or-fault-failure")
 		// nothing was committed; whatever the failed transaction took from the free list must be reusable
 		// again: checked at the next writer begin / probe (exact free set when no reader is open)
 		return nil
